@@ -4,59 +4,68 @@
    ({x1<=a1} + {x1>a1, x2<=a2} + {x1>a1, x2>a2, x3<=a3}) and as inclusion-exclusion (d = 2); it is non-decreasing in every
    threshold (from the copula-level hypotheses of C12_nonneg, i.e. what C11 proves); spread maps. *)
 From Coq Require Import List Arith Bool Reals Lra Lia.
-From RV Require Import Base.RB Base.ExtNum Model.Copula Gen.GenC12Mass Model.MassNd Gen.GenC19Theta Model.Credit Proofs.C12_Mass Proofs.C12_Nonneg.
+From RV Require Import Base.RB Base.ExtNum Model.Copula Gen.GenC12Mass Model.MassNd Gen.GenC19Theta Model.Credit Proofs.C12_Mass Proofs.C12_Family Proofs.C12_Nonneg.
 Import ListNotations.
 Open Scope R_scope.
 
 Section Union.
   Variable U1 : nat -> ext R -> R.
   Variable UI : idx -> list (ext R) -> R.
-  Hypothesis UI_inf : forall I x, existsb is_inf x = true -> UI (Some I) x = 0.
-  Hypothesis UI_one : forall i x, UI (Some [i]) [x] = U1 i x.
+  Variable ok : list nat -> Prop.      (* valid index lists of the family (okI d) *)
+  Hypothesis UI_inf : forall I x, ok I -> length x = length I -> existsb is_inf x = true -> UI (Some I) x = 0.
+  Hypothesis UI_one : forall i x, ok [i] -> UI (Some [i]) [x] = U1 i x.
   Notation f1 := (fast_1d RNum U1).
   Notation f2 := (fast_2d RNum U1 UI).
   Notation f3 := (fast_3d RNum U1 UI).
 
-  Lemma u1p i : U1 i PInf = 0. Proof. rewrite <- UI_one. apply UI_inf; reflexivity. Qed.
-  Lemma u1n i : U1 i NInf = 0. Proof. rewrite <- UI_one. apply UI_inf; reflexivity. Qed.
-  Lemma j2a I y : UI (Some I) [PInf; y] = 0. Proof. apply UI_inf; reflexivity. Qed.
-  Lemma j2b I y : UI (Some I) [NInf; y] = 0. Proof. apply UI_inf; reflexivity. Qed.
-  Lemma j2c I x : UI (Some I) [x; PInf] = 0. Proof. apply UI_inf; simpl; destruct x; reflexivity. Qed.
-  Lemma j2d I x : UI (Some I) [x; NInf] = 0. Proof. apply UI_inf; simpl; destruct x; reflexivity. Qed.
-  Lemma j3a I y z : UI (Some I) [PInf; y; z] = 0. Proof. apply UI_inf; reflexivity. Qed.
-  Lemma j3b I y z : UI (Some I) [NInf; y; z] = 0. Proof. apply UI_inf; reflexivity. Qed.
-  Lemma j3c I x z : UI (Some I) [x; PInf; z] = 0. Proof. apply UI_inf; simpl; destruct x; reflexivity. Qed.
-  Lemma j3d I x z : UI (Some I) [x; NInf; z] = 0. Proof. apply UI_inf; simpl; destruct x; reflexivity. Qed.
-  Lemma j3e I x y : UI (Some I) [x; y; PInf] = 0. Proof. apply UI_inf; simpl; destruct x, y; reflexivity. Qed.
-  Lemma j3f I x y : UI (Some I) [x; y; NInf] = 0. Proof. apply UI_inf; simpl; destruct x, y; reflexivity. Qed.
-  Ltac infs := rewrite ?j2a, ?j2b, ?j2c, ?j2d, ?j3a, ?j3b, ?j3c, ?j3d, ?j3e, ?j3f, ?u1p, ?u1n.
+  Lemma u1p i : ok [i] -> U1 i PInf = 0. Proof. intros. rewrite <- UI_one by assumption. apply UI_inf; auto. Qed.
+  Lemma u1n i : ok [i] -> U1 i NInf = 0. Proof. intros. rewrite <- UI_one by assumption. apply UI_inf; auto. Qed.
+  Lemma j2a i j y : ok [i; j] -> UI (Some [i; j]) [PInf; y] = 0. Proof. intros; apply UI_inf; auto. Qed.
+  Lemma j2b i j y : ok [i; j] -> UI (Some [i; j]) [NInf; y] = 0. Proof. intros; apply UI_inf; auto. Qed.
+  Lemma j2c i j x : ok [i; j] -> UI (Some [i; j]) [x; PInf] = 0. Proof. intros; apply UI_inf; auto; simpl; destruct x; reflexivity. Qed.
+  Lemma j2d i j x : ok [i; j] -> UI (Some [i; j]) [x; NInf] = 0. Proof. intros; apply UI_inf; auto; simpl; destruct x; reflexivity. Qed.
+  Lemma j3a i j k y z : ok [i; j; k] -> UI (Some [i; j; k]) [PInf; y; z] = 0. Proof. intros; apply UI_inf; auto. Qed.
+  Lemma j3b i j k y z : ok [i; j; k] -> UI (Some [i; j; k]) [NInf; y; z] = 0. Proof. intros; apply UI_inf; auto. Qed.
+  Lemma j3c i j k x z : ok [i; j; k] -> UI (Some [i; j; k]) [x; PInf; z] = 0. Proof. intros; apply UI_inf; auto; simpl; destruct x; reflexivity. Qed.
+  Lemma j3d i j k x z : ok [i; j; k] -> UI (Some [i; j; k]) [x; NInf; z] = 0. Proof. intros; apply UI_inf; auto; simpl; destruct x; reflexivity. Qed.
+  Lemma j3e i j k x y : ok [i; j; k] -> UI (Some [i; j; k]) [x; y; PInf] = 0. Proof. intros; apply UI_inf; auto; simpl; destruct x, y; reflexivity. Qed.
+  Lemma j3f i j k x y : ok [i; j; k] -> UI (Some [i; j; k]) [x; y; NInf] = 0. Proof. intros; apply UI_inf; auto; simpl; destruct x, y; reflexivity. Qed.
+  Ltac infs := rewrite ?j2a, ?j2b, ?j2c, ?j2d, ?j3a, ?j3b, ?j3c, ?j3d, ?j3e, ?j3f, ?u1p, ?u1n by assumption.
 
-  Theorem theta1_union a1 : @xlt0 RNum a1 = true -> th1 RNum U1 a1 = f1 NInf a1 0%nat.
-  Proof. intros H. unfold th1, theta_1, mass_below, fast_1d, mass_1d. rewrite H. cbn. rewrite u1n. ring. Qed.
+  Theorem theta1_union a1 : ok [0%nat] -> @xlt0 RNum a1 = true -> th1 RNum U1 a1 = f1 NInf a1 0%nat.
+  Proof. intros K0 H. unfold th1, theta_1, mass_below, fast_1d, mass_1d. rewrite H. cbn. rewrite u1n by assumption. ring. Qed.
 
-  Theorem theta2_union a1 a2 : @xlt0 RNum a1 = true -> @xlt0 RNum a2 = true ->
+  Theorem theta2_union a1 a2 : ok2 ok 0 1 -> @xlt0 RNum a1 = true -> @xlt0 RNum a2 = true ->
     th2 RNum U1 UI a1 a2 = f2 [NInf; NInf] [a1; PInf] None + f2 [a1; NInf] [PInf; a2] None
     /\ th2 RNum U1 UI a1 a2 = f2 [NInf; NInf] [a1; PInf] None + f2 [NInf; NInf] [PInf; a2] None - f2 [NInf; NInf] [a1; a2] None.
   Proof.
-    intros H1 H2. pose proof (lt0_ge0 _ H1) as G1. pose proof (lt0_ge0 _ H2) as G2.
+    intros [K01 [K0 K1]] H1 H2. pose proof (lt0_ge0 _ H1) as G1. pose proof (lt0_ge0 _ H2) as G2.
     unfold th2, theta_2, mass_below, fast_2d, mass_2d, mass_1d. rewrite H1, H2, G1, G2.
     cbn [is_some is_none olen Nat.eqb andb orb length]. rewrite ?xN1, ?xN2, ?xP1, ?xP2, ?H1, ?H2, ?G1, ?G2. cbn. infs. split; ring.
   Qed.
 
-  Theorem theta3_union a1 a2 a3 : @xlt0 RNum a1 = true -> @xlt0 RNum a2 = true -> @xlt0 RNum a3 = true ->
+  Theorem theta3_union a1 a2 a3 : ok3 ok 0 1 2 -> @xlt0 RNum a1 = true -> @xlt0 RNum a2 = true -> @xlt0 RNum a3 = true ->
     th3 RNum U1 UI a1 a2 a3 = f3 [NInf; NInf; NInf] [a1; PInf; PInf] None + f3 [a1; NInf; NInf] [PInf; a2; PInf] None
-                               + f3 [a1; a2; NInf] [PInf; PInf; a3] None.
+                               + f3 [a1; a2; NInf] [PInf; PInf; a3] None
+    /\ th3 RNum U1 UI a1 a2 a3 =
+         f3 [NInf; NInf; NInf] [a1; PInf; PInf] None + f3 [NInf; NInf; NInf] [PInf; a2; PInf] None + f3 [NInf; NInf; NInf] [PInf; PInf; a3] None
+         - f3 [NInf; NInf; NInf] [a1; a2; PInf] None - f3 [NInf; NInf; NInf] [a1; PInf; a3] None - f3 [NInf; NInf; NInf] [PInf; a2; a3] None
+         + f3 [NInf; NInf; NInf] [a1; a2; a3] None.
   Proof.
-    intros H1 H2 H3. pose proof (lt0_ge0 _ H1) as G1. pose proof (lt0_ge0 _ H2) as G2. pose proof (lt0_ge0 _ H3) as G3.
+    intros [K012 [K01 [K02 [K12 [K0 [K1 K2]]]]]] H1 H2 H3. pose proof (lt0_ge0 _ H1) as G1. pose proof (lt0_ge0 _ H2) as G2. pose proof (lt0_ge0 _ H3) as G3.
     unfold th3, theta_3, mass_below, fast_3d, mass_3d, mass_2d, mass_1d. rewrite H1, H2, H3, G1, G2, G3.
-    cbn [is_some is_none olen Nat.eqb Nat.ltb Nat.leb andb orb length]. rewrite ?xN1, ?xN2, ?xP1, ?xP2, ?H1, ?H2, ?H3, ?G1, ?G2, ?G3. cbn. infs. ring.
+    cbn [is_some is_none olen Nat.eqb Nat.ltb Nat.leb andb orb length]. rewrite ?xN1, ?xN2, ?xP1, ?xP2, ?H1, ?H2, ?H3, ?G1, ?G2, ?G3. cbn. infs. split; ring.
   Qed.
 End Union.
 
 Section Monotone.
   Variable U1 : nat -> ext R -> R.
   Variable cop : list (ext R) -> R.
-  Hypothesis Tok : tails_ok U1.
+  Definition rtails_ok : Prop :=
+    (forall i, U1 i PInf = 0 /\ U1 i NInf = 0) /\
+    (forall i x y, @xleb RNum x y = true -> (@xlt0 RNum y = true \/ @xlt0 RNum x = false) -> U1 i y <= U1 i x).
+  Hypothesis Tok : rtails_ok.
+  Notation V := (fun i x => Fin (U1 i x)).
 
   Lemma tail_order i x y : @xleb RNum x y = true -> @xlt0 RNum y = true -> @xleb RNum (Fin (U1 i y)) (Fin (U1 i x)) = true.
   Proof. intros H1 H2. apply xleb_fin. destruct Tok as [_ Tm]. apply Tm; auto. Qed.
@@ -69,8 +78,8 @@ Section Monotone.
 
   Theorem theta2_monotone : copula2_ok cop -> forall a1 a1' a2 a2',
     @xleb RNum a1 a1' = true -> @xlt0 RNum a1' = true -> @xleb RNum a2 a2' = true -> @xlt0 RNum a2' = true ->
-    th2 RNum U1 (margin_tail_integral RNum U1 cop 2) a1 a2 <= th2 RNum U1 (margin_tail_integral RNum U1 cop 2) a1' a2 /\
-    th2 RNum U1 (margin_tail_integral RNum U1 cop 2) a1 a2 <= th2 RNum U1 (margin_tail_integral RNum U1 cop 2) a1 a2'.
+    th2 RNum U1 (margin_tail_integral RNum V cop 2) a1 a2 <= th2 RNum U1 (margin_tail_integral RNum V cop 2) a1' a2 /\
+    th2 RNum U1 (margin_tail_integral RNum V cop 2) a1 a2 <= th2 RNum U1 (margin_tail_integral RNum V cop 2) a1 a2'.
   Proof.
     intros [Cg [Cinc Cm]] a1 a1' a2 a2' L1 N1' L2 N2'.
     pose proof (lt0_mono _ _ L1 N1') as N1. pose proof (lt0_mono _ _ L2 N2') as N2.
@@ -89,7 +98,7 @@ Section Monotone.
   Theorem theta3_monotone : copula3_ok cop -> forall a1 a1' a2 a2' a3 a3',
     @xleb RNum a1 a1' = true -> @xlt0 RNum a1' = true -> @xleb RNum a2 a2' = true -> @xlt0 RNum a2' = true ->
     @xleb RNum a3 a3' = true -> @xlt0 RNum a3' = true ->
-    let UI := margin_tail_integral RNum U1 cop 3 in
+    let UI := margin_tail_integral RNum V cop 3 in
     th3 RNum U1 UI a1 a2 a3 <= th3 RNum U1 UI a1' a2 a3 /\ th3 RNum U1 UI a1 a2 a3 <= th3 RNum U1 UI a1 a2' a3 /\
     th3 RNum U1 UI a1 a2 a3 <= th3 RNum U1 UI a1 a2 a3'.
   Proof.
@@ -123,3 +132,33 @@ Section Monotone.
     clear Cinc Cm Cg. cbn in *. rewrite ?g1, ?g2, ?g3 in *. repeat split; lra.
   Qed.
 End Monotone.
+
+(* ---- the union-mass identities on the modelled family (no hypothesis on UI left) ---------------------------- *)
+Section UnionModel.
+  Variable V : nat -> ext R -> ext R.
+  Variable cop : list (ext R) -> R.
+  Hypothesis Vinf : tails_inf V.
+  Notation U1 := (tail_val RNum V).
+  Theorem theta2_union_model : grounded2 cop -> forall a1 a2, @xlt0 RNum a1 = true -> @xlt0 RNum a2 = true ->
+    let UI := margin_tail_integral RNum V cop 2 in
+    th2 RNum U1 UI a1 a2 = fast_2d RNum U1 UI [NInf; NInf] [a1; PInf] None + fast_2d RNum U1 UI [a1; NInf] [PInf; a2] None
+    /\ th2 RNum U1 UI a1 a2 = fast_2d RNum U1 UI [NInf; NInf] [a1; PInf] None + fast_2d RNum U1 UI [NInf; NInf] [PInf; a2] None
+                              - fast_2d RNum U1 UI [NInf; NInf] [a1; a2] None.
+  Proof.
+    intros G a1 a2 H1 H2 UI. eapply theta2_union with (ok := okI 2);
+      first [exact (mti_inf2 V cop Vinf G) | (intros; apply mti_one; lia) | (apply ok2_of; lia) | assumption].
+  Qed.
+  Theorem theta3_union_model : grounded3 cop -> forall a1 a2 a3, @xlt0 RNum a1 = true -> @xlt0 RNum a2 = true -> @xlt0 RNum a3 = true ->
+    let UI := margin_tail_integral RNum V cop 3 in
+    let f3 := fast_3d RNum U1 UI in
+    th3 RNum U1 UI a1 a2 a3 = f3 [NInf; NInf; NInf] [a1; PInf; PInf] None + f3 [a1; NInf; NInf] [PInf; a2; PInf] None
+                               + f3 [a1; a2; NInf] [PInf; PInf; a3] None
+    /\ th3 RNum U1 UI a1 a2 a3 =
+         f3 [NInf; NInf; NInf] [a1; PInf; PInf] None + f3 [NInf; NInf; NInf] [PInf; a2; PInf] None + f3 [NInf; NInf; NInf] [PInf; PInf; a3] None
+         - f3 [NInf; NInf; NInf] [a1; a2; PInf] None - f3 [NInf; NInf; NInf] [a1; PInf; a3] None - f3 [NInf; NInf; NInf] [PInf; a2; a3] None
+         + f3 [NInf; NInf; NInf] [a1; a2; a3] None.
+  Proof.
+    intros G a1 a2 a3 H1 H2 H3 UI f3. eapply theta3_union with (ok := okI 3);
+      first [exact (mti_inf3 V cop Vinf G) | (intros; apply mti_one; lia) | (apply ok3_of; lia) | assumption].
+  Qed.
+End UnionModel.
